@@ -43,3 +43,20 @@ func init() {
 	checks["C05"] = checkC05
 	replayers["C05"] = replaySemCase(&SemOpts{})
 }
+
+func checkC02(c *Ctx) {
+	o := &SemOpts{}
+	cfg := "FamOps_quick.cfg"
+	if c.Tier == "thorough" {
+		cfg = "FamOps_thorough.cfg"
+	}
+	c.runSemFamily("FamOps", cfg, o, 40*time.Minute)
+	c.cov("exhaustive", true)
+	c.cov("rule", "every unary and binary operator x every ordered pair of the value pool of FamOps (all runtime kinds, boundary magnitudes), one program per cell, plus NRandom seeded random nested expressions; cells the documentation leaves open (numeric-looking string operands, inexact pow used as an operand) are emitted with status unspec and skipped; non-trivial = prints a value or raises an error")
+	semAssumptions(c)
+}
+
+func init() {
+	checks["C02"] = checkC02
+	replayers["C02"] = replaySemCase(&SemOpts{})
+}
